@@ -228,6 +228,14 @@ func checkReportAllOrNothing(c *Ctx, res *report.Result, rule string) {
 	sort.Slice(list, func(i, j int) bool { return list[i].String() < list[j].String() })
 	memo := map[*ssa.Function][3]string{}
 	for _, f := range list {
+		// the report runs on the handler's goroutine: CapturePanic only covers panics on the handler's own stack
+		for _, b := range f.Blocks {
+			for _, ins := range b.Instrs {
+				if g, isGo := ins.(*ssa.Go); isGo {
+					res.Viol(rule, "stream reporter "+shortFn(f)+" reports on the handler's goroutine", instrPos(c.Prog, g), "the reporter starts a goroutine for the report: the observer rejects an out-of-range shard id by panicking, and a panic on any goroutine other than the handler's is not turned into an error by log.CapturePanic - it ends the process, with every stream of every connection")
+				}
+			}
+		}
 		bad, _, _ := effectThenPanic(f, 3, memo)
 		res.Check(bad == "", rule, "stream reporter "+shortFn(f)+" is all-or-nothing", fnPos(c.Prog, f), "no counting effect is followed by an instruction that may panic", "the reporter can fail after it has counted: "+bad+" - the handler registers the deferred -1 only after the +1 report returned, so a report that panics half-way (a huge shard id is rejected that way) leaves the count it already changed incremented for ever, and every later stream is counted on top of a phantom one")
 	}
